@@ -1,4 +1,5 @@
 import Gtree.Lemmas.Validate
+import Gtree.Props.C05
 /-
   C07 — names are validated first: a tree containing a name that is not a single valid path element
   is rejected, and (without the massive option) nothing at all is created – for From-Markdown and
@@ -45,5 +46,45 @@ theorem C07_valid_name_shape (n : Bytes) :
   unfold singleElem dotdot
   simp only [Bool.and_eq_true, Bool.not_eq_eq_eq_not, Bool.not_true, bne_iff_ne, ne_eq,
     List.isEmpty_eq_false_iff, List.contains_eq_mem, decide_eq_false_iff_not, and_assoc]
+
+end Gtree
+
+namespace Gtree
+
+theorem specPaths_shape : ∀ (ks : List T) (pre : List Bytes), (∀ e ∈ pre, Elem e) → AllElemL ks →
+    ∀ p ∈ specPaths pre ks, ∃ names : List Bytes, names ≠ [] ∧ (∀ n ∈ names, Elem n) ∧ p = joinSlash names
+  | [], _, _, _, p, hp => by simp [specPaths] at hp
+  | T.mk n sub :: rest, pre, hpre, hk, p, hp => by
+    rw [AllElemL, AllElemT] at hk
+    obtain ⟨⟨hn, hsub⟩, hrest⟩ := hk
+    have hpre' : ∀ e ∈ pre ++ [n], Elem e := by
+      intro e he
+      rcases List.mem_append.mp he with he | he
+      · exact hpre e he
+      · simp only [List.mem_singleton] at he; subst he; exact hn
+    simp only [specPaths, List.mem_cons, List.mem_append] at hp
+    rcases hp with (rfl | hp) | hp
+    · exact ⟨pre ++ [n], by simp, hpre', rfl⟩
+    · exact specPaths_shape sub (pre ++ [n]) hpre' hsub p hp
+    · exact specPaths_shape rest pre hpre hrest p hp
+termination_by ks => sizeOf ks
+
+/-- C07 (first sentence, lexical part): for a tree whose names are single valid path elements (what
+    validation guarantees) and a clean relative target directory, every path handed to the file
+    system for a node is the target, one '/', and names from the root joined by '/': there is no
+    way up and out of the target. -/
+theorem C07_paths_under_target (f : Fmt) (t : T) (h : AllElemT t) (ts : List Bytes) (ht : ts ≠ [])
+    (hts : ∀ e ∈ ts, Elem e) :
+    ∀ v ∈ growRoot f t, ∃ names : List Bytes, names ≠ [] ∧ (∀ n ∈ names, Elem n) ∧
+      v.path = joinSlash names ∧
+      filepathJoin [joinSlash ts, v.path] = joinSlash ts ++ slash :: joinSlash names := by
+  intro v hv
+  have hmem : v.path ∈ specPaths [] [t] := by
+    rw [← C05_path f t h]
+    exact List.mem_map_of_mem hv
+  obtain ⟨names, hne, hel, hp⟩ := specPaths_shape [t] [] (by simp) (by rw [AllElemL]; exact ⟨h, by rw [AllElemL]; trivial⟩) v.path hmem
+  refine ⟨names, hne, hel, hp, ?_⟩
+  rw [hp]
+  exact filepathJoin_valid ts names ht hne hts hel
 
 end Gtree
